@@ -1085,27 +1085,40 @@ class AsyncBackgroundBatcher(Generic[A_contra, R_co]):
 
         fut: 'aio.Future[R_co]'
 
+        # The future is shared by every caller of the key, so it is always
+        # awaited through a shield: cancelling one caller must not cancel
+        # the request for the others (or for the running batch)
         try:
             fut = self._retention_cache[key]
         except KeyError:
             pass
         else:
-            return await fut
+            return await aio.shield(fut)
 
         fut = self._retention_cache[key] = self._loop.create_future()
+        # Forget the key once the request has been answered, whether or
+        # not this original caller is still around at that point
+        fut.add_done_callback(partial(self._forget, key))
         await self._queue.put((key, arg, fut))
 
-        try:
-            return await fut
-        finally:
-            if self.retention_timeout > 0:
-                self._loop.call_later(
-                    self.retention_timeout,
-                    self._retention_cache.pop,
-                    key,
-                )
-            else:
-                del self._retention_cache[key]
+        return await aio.shield(fut)
+
+    def _forget(self, key: str, fut: 'aio.Future[R_co]') -> None:
+        """
+        Drop a finished request from the retention cache, right away or
+        after :attr:`retention_timeout` seconds.
+        """
+        if not fut.cancelled():
+            fut.exception()  # Every caller may have been cancelled
+        if self.retention_timeout > 0:
+            self._loop.call_later(
+                self.retention_timeout,
+                self._retention_cache.pop,
+                key,
+                None,
+            )
+        else:
+            self._retention_cache.pop(key, None)
 
     def _daemon_task(
         self,
